@@ -1,12 +1,12 @@
 /* s4u_ext_model.hpp: operations and records added for C19 / C20 / C21 (owner: builder "model").  See notes/C20.md, notes/C21.md.
  *
  * Scenario key
- *   "msample": {"rate":true, "unguarded":false, "raw":false, "disks":[disk names], "cpu":[hosts], "links":[resolved link names]}
+ *   "msample": {"rate":true, "raw":false, "disks":[disk names], "cpu":[hosts], "links":[resolved link names]}
  *       one record per time advance (after the core's own "s" record when both are requested):
  *       {"k":"ms","t", "rate":{h:[rate, remaining, penalty, state, suspended]},   one entry per handle that has a model action: rate =
  *                             Action::get_rate() (the rate granted by the last solve, i.e. over the time advance that just ended), remaining =
- *                             Activity::get_remaining() (the public getter; when the model action is no longer STARTED the raw remains_
- *                             unless "unguarded":true), state = Action::State as an int (1 = STARTED, 3 = FINISHED)
+ *                             Activity::get_remaining() (the public getter; with "raw":true the raw remains_ field instead, which
+ *                             is stale under a lazy model but does not make the model fold its pending progress), state = Action::State as an int (1 = STARTED, 3 = FINISHED)
  *                      "disk":{name:[usage, read_usage, write_usage, capacity, read_capacity, write_capacity]},
  *                      "cpu":{host:[usage, capacity]}, "link":{name:[usage, capacity]}}
  *       (usage = Constraint::get_load() = what Host::get_load() / Link::get_load() return; capacity = Constraint::bound_)
@@ -27,7 +27,7 @@
 
 namespace vf {
 
-static const char* const model_ext_version = "model-ext-v3"; // `strings s4u_model | grep model-ext` tells which header was compiled
+static const char* const model_ext_version = "model-ext-v4"; // `strings s4u_model | grep model-ext` tells which header was compiled
 
 static json model_arr(std::initializer_list<std::string> l)
 {
@@ -92,9 +92,6 @@ static void model_setup()
     const json& sp = S->scenario["msample"];
     json j         = {{"k", "ms"}, {"t", hx(now())}};
     if (sp.value("rate", false)) {
-      // "unguarded": call the public getter even when the model action is no longer running (see notes/C21.md: with a lazy CPU model
-      // Exec::get_remaining() aborts at the completion date of the execution); default: guarded, so that the search goes on behind it
-      bool unguarded = sp.value("unguarded", false);
       // "raw": never call the getter (which makes a lazy model fold its pending progress, i.e. observing changes the bookkeeping):
       // report the raw remains_ field, stale under a lazy model; the oracle then only uses the granted rates
       bool raw = sp.value("raw", false);
@@ -103,8 +100,7 @@ static void model_setup()
         auto* a = model_action_of(h);
         if (a == nullptr)
           continue;
-        bool running = a->get_state() == simgrid::kernel::resource::Action::State::STARTED;
-        double rem   = raw ? a->get_remains_no_update() : (running || unguarded) ? h.act->get_remaining() : a->get_remains_no_update();
+        double rem   = raw ? a->get_remains_no_update() : h.act->get_remaining();
         j["rate"][std::to_string(k)] = model_arr({hx(a->get_rate()), hx(rem), hx(a->get_sharing_penalty()),
                                                   std::to_string(static_cast<int>(a->get_state())), a->is_suspended() ? "1" : "0"});
       }
